@@ -99,6 +99,20 @@ OpRound(x) == Val("L", x.lab, x.suf, x.n)                                       
 \* scalar total times an array of monthly factors -> series
 OpMulArr(x) == Val("L", x.lab, " each month", [i \in 1..3 |-> <<x.n[i], RMul(x.n[i], I2(2))>>])
 
+\* conversion (in_units) between the setting-independent mass units: the result carries the *requested* label for each
+\* nutrient (the three targets may differ), the same suffix and shape, and fat / protein divided by 1000 where million tons
+\* were requested
+Targets == [ConvertA |-> <<"billion kcals", "million tons", "thousand tons">>,
+            ConvertB |-> <<"billion kcals", "thousand tons", "million tons">>,
+            ConvertC |-> <<"billion kcals", "million tons", "million tons">>]
+Conversions == DOMAIN Targets
+Thousandth(q) == RDiv(q, I2(1000))
+OpConvert(op, x) ==
+  LET tg == Targets[op]
+      conv(i, q) == IF tg[i] = "million tons" THEN Thousandth(q) ELSE q
+  IN Val(x.sh, tg, x.suf, IF x.sh = "S" THEN [i \in 1..3 |-> conv(i, x.n[i])]
+                          ELSE [i \in 1..3 |-> [m \in 1..NM |-> conv(i, x.n[i][m])]])
+
 Unary == {"DivNum", "MulNum", "RMulNum", "Neg", "Abs", "NegToZero"}
 SeriesOps == {"GetMonth", "GetItem", "Sum", "MinAll", "MaxAll", "Running", "Shift1", "Slice", "Round"}
 Binary == {"Add", "Sub", "MinElem", "DivFood", "MulFood"}
@@ -112,6 +126,7 @@ Result(op, x, y) ==
     [] op = "MinAll" -> OpMinAll(x) [] op = "MaxAll" -> OpMaxAll(x) [] op = "Running" -> OpRunning(x)
     [] op = "Shift1" -> OpShift1(x) [] op = "Slice" -> OpSlice(x) [] op = "Round" -> OpRound(x)
     [] op = "MulArr" -> OpMulArr(x)
+    [] op \in Conversions -> OpConvert(op, x)
 
 \* which (op, x, y) are in the domain the property speaks about
 Applicable(op, x, y) ==
@@ -120,6 +135,7 @@ Applicable(op, x, y) ==
     \* (two ratios with different suffixes have no documented product: outside the domain)
     [] op = "MulFood" -> ~(IsRatio(x) /\ IsRatio(y) /\ x.sh = "S" /\ y.sh = "S" /\ x.suf # y.suf)
     [] op \in Unary -> TRUE
+    [] op \in Conversions -> x.lab = Default
     [] op = "Round" -> x.sh = "L" /\ \A i \in 1..3 : \A m \in 1..NM : x.n[i][m][2] = 1
     [] op \in SeriesOps -> x.sh = "L"
     [] op = "MulArr" -> x.sh = "S" /\ x.suf = ""
@@ -156,7 +172,7 @@ Compare ==
                             r |-> IF SameUnits(a, b) THEN [sh |-> "Bool"] ELSE Reject]))
   /\ depth' = MaxDepth /\ UNCHANGED <<a, b>>
 
-Next == (\E op \in Binary \cup Unary \cup SeriesOps \cup {"MulArr"} : Apply(op)) \/ Compare
+Next == (\E op \in Binary \cup Unary \cup SeriesOps \cup {"MulArr"} \cup Conversions : Apply(op)) \/ Compare
 Spec == Init /\ [][Next]_vars
 
 \* design sanity: every value the operations can produce is well formed
